@@ -58,8 +58,10 @@ class Stop:
         self.post_pull = None
         self.use_hooks = True
         self.idle_signal = False
+        self.close_delay = False
         if kind == "aclose":
             self.close_after = tape.weighted((3, 3, 2, 1, 1), "close_after")
+            self.close_delay = bool(tape.draw(2, "close_delay"))
         elif kind == "abort":
             self.controller = AbortController()
             self.reason_kind = ("default", "exception", "value")[tape.draw(3, "reason")]
